@@ -225,6 +225,12 @@ def reader_binding(ctx, fn, read):
         steps += 1
         if isinstance(par, ast.Call) and cur in par.args:
             nm = prog.resolve(f.module, par.func)
+            ro = _reorders(ctx, f, par, cur)
+            if ro:
+                read.reordered = ro
+                cur = par
+                par = getattr(par, '_parent', None)
+                continue
             if nm in ('numpy.array', 'numpy.asarray'):
                 tag = 'array'
             elif nm == 'pandas.DataFrame':
@@ -267,7 +273,7 @@ def reader_binding(ctx, fn, read):
                 elif isinstance(par.func, ast.Name) and par.func.id == 'map' and par.args and isinstance(par.args[0], ast.Attribute) \
                         and par.args[0].attr == 'from_dict':
                     tag = 'dicts'
-                elif isinstance(par.func, ast.Name) and par.func.id in ('list', 'tuple', 'iter', 'enumerate', 'reversed', 'zip'):
+                elif isinstance(par.func, ast.Name) and par.func.id in ('list', 'tuple', 'iter', 'enumerate', 'zip'):
                     pass
                 elif tag == 'id' and not (isinstance(par.func, ast.Attribute) and par.func.attr in ('extend', 'append', 'update', 'get', 'pop')):
                     tag = 'unknown'
@@ -314,6 +320,29 @@ def reader_binding(ctx, fn, read):
         cur = par
         par = getattr(par, '_parent', None)
     return tag, attr
+
+
+REORDERING = {'sorted', 'reversed', 'sort', 'flip', 'flipud', 'unique', 'shuffle', 'permutation', 'sort_values', 'sort_index'}
+
+
+def _reorders(ctx, f, call, arg):
+    """Text of the reordering when `call` returns its argument `arg` in another order: sorted / reversed / np.sort ...,
+    or a project helper whose single return is such a call on the parameter `arg` is bound to."""
+    prog = ctx.prog
+    leaf = call_name(call)
+    nm = prog.resolve(f.module, call.func) or ''
+    if leaf in REORDERING and (isinstance(call.func, ast.Name) or nm.startswith('numpy.') or nm.startswith('random.')):
+        return short(call.func, 30)
+    t = [t for t in ctx.cg.targets(f, call) if t.kind == 'proj' and not t.how.startswith('decorator') and t.how != 'by method name']
+    if len(t) == 1:
+        g = t[0].fn
+        rets = [r for r in walk_no_nested(g.node) if isinstance(r, ast.Return) and r.value is not None]
+        b = get_alias(ctx).bind(f, call, g)
+        ps = [p for p, args in b.items() if any(a is arg for a in args)]
+        if len(rets) == 1 and len(ps) == 1 and isinstance(rets[0].value, ast.Call) and call_name(rets[0].value) in REORDERING \
+                and rets[0].value.args and isinstance(rets[0].value.args[0], ast.Name) and rets[0].value.args[0].id == ps[0]:
+            return f'{g.short} ({short(rets[0].value, 40)})'
+    return None
 
 
 def _follow_local(ctx, f, name):
@@ -381,6 +410,7 @@ def run(ctx, rep):
     for rid, text in (
             ('D1.keys', 'every key written by to_dict is read by from_dict (or is a dispatch tag) and every key read is written'),
             ('D2.attr', 'a key written from self.A is restored into the same attribute A'),
+            ('D3.order', 'a recorded sequence is restored in the recorded order: no sorted / reversed / np.sort / .sort() on the reader side'),
             ('D3.transform', 'writer and reader transforms are inverse (tolist/np.array, to_numpy().tolist()/DataFrame, [to_dict]/[from_dict])'),
             ('D4.complete', 'every attribute the query/serialisation closure reads is restored by from_dict; every constructor option that shapes the rebuilt model is serialised'),
             ('D5.dispatch', 'the recorded type is the class from_dict must build; enum factories cover every member'),
@@ -460,6 +490,19 @@ def pair(ctx, rep, cls, w, r):
         # D3
         if rtag == 'label':
             continue
+        ro = getattr(rd, 'reordered', None)
+        if ro is None and rattr and not rattr.startswith('ctor:'):
+            # <instance>.<attr>.sort() / .reverse() after the restore
+            rf = w.prog.functions[rd.fn.qualname]
+            for x in walk_no_nested(rf.node):
+                if isinstance(x, ast.Call) and isinstance(x.func, ast.Attribute) and x.func.attr in ('sort', 'reverse') \
+                        and isinstance(x.func.value, ast.Attribute) and x.func.value.attr == rattr and isinstance(x.func.value.value, ast.Name):
+                    ro = short(x, 40)
+        if ro is not None and wtag in ('dicts', 'id', 'list', 'array', 'frame'):
+            rep.bad('D3.order', rd.fn, rd.node, f"'{k}' is read back through {ro}: the restored sequence is in a different order than the recorded one "
+                    '(positions / indices recorded elsewhere no longer match)', construct=f"'{k}' order")
+        else:
+            rep.ok('D3.order', rd.fn, rd.node, f"'{k}' keeps the recorded order", construct=f"'{k}' order")
         if (wtag, rtag) in COMPATIBLE:
             rep.ok('D3.transform', rd.fn, rd.node, f"'{k}': {wtag} <-> {rtag}", construct=f"'{k}'")
         elif rtag == 'unknown':
